@@ -533,8 +533,9 @@ def ref_lex(code):
         if done:
             continue
         if ch == "'" or ch == '"':
+            q = "'" if ch == "'" else '"'  # a string is closed by a quotation mark of its own kind
             j = i + 1
-            while j < n and not (code[j] == "'" or code[j] == '"'):
+            while j < n and not code[j] == q:
                 j += 1
             if j >= n:
                 raise RefReject("unterminated string")
@@ -901,7 +902,6 @@ def run(tier, seed):
     rep.outside = [
         "sentences longer than the stated bounds (the 'unbounded depth' part of the quantifier is not reachable by a bounded technique)",
         "characters outside the alphabet other than the two representatives '#' and 'é'",
-        "mismatched quote pairs ('a\") are accepted by design of the scanner (either quote terminates) and are not demanded to fail",
         "composition H1∘H2 is argued, not proved: model_description = Resolver∘Parser∘Scanner",
     ]
     rep.assumptions = [
